@@ -77,6 +77,14 @@ func c16Plen(id shID, tag string) int {
 	}
 }
 
+// The bytes of (id, tag) written in a given cycle: the tag is what the specification sees (8 versions per
+// identifier, so that the history variable of Store.tla stays bounded); the cycle is woven into every other field,
+// so that the parent can tell from returned bytes in which cycle they were written (logged as "wc", used to
+// explain a rejection and to detect stores of the killed child that the parent failed to account).
+func c16Build(w *shWorld, id shID, tag string, cycle int) *vhVAA {
+	return w.build(id, fmt.Sprintf("%s@c%d", tag, cycle), c16Plen(id, tag))
+}
+
 // the child's stream: position n of cycle c -> (index into the identifier table, tag).
 type c16Stream struct {
 	rnd   *rand.Rand
@@ -124,7 +132,7 @@ func TestVerifStoreChild(t *testing.T) {
 	say("OPENED")
 	for n := 0; n < max; n++ {
 		k, tag := st.next()
-		v := w.build(ids[k], tag, c16Plen(ids[k], tag))
+		v := c16Build(w, ids[k], tag, cycle)
 		if err := d.StoreSignedVAA(shToVAA(v)); err != nil {
 			say("STOREFAIL " + strconv.Itoa(n) + " " + strings.ReplaceAll(err.Error(), "\n", " "))
 			os.Exit(4)
@@ -159,15 +167,24 @@ func c16Start(dir string, dirSeed int64, cycle, max int) (*c16Child, error) {
 	cmd.Env = append(os.Environ(), "VERIF_C16_CHILD_DIR="+dir, "VERIF_C16_DIRSEED="+strconv.FormatInt(dirSeed, 10),
 		"VERIF_C16_CYCLE="+strconv.Itoa(cycle), "VERIF_C16_MAX="+strconv.Itoa(max))
 	cmd.Stderr = nil
-	pipe, err := cmd.StdoutPipe()
+	// An own pipe, not cmd.StdoutPipe: cmd.Wait closes the read side of a StdoutPipe as soon as the process has
+	// exited, and acknowledgement lines still sitting in the pipe would be lost - the parent would then account
+	// fewer stores than the child performed.  Here the reader owns the read side and drains it to EOF (the write
+	// side closes when the child dies) before anything is accounted.
+	pipe, pw, err := os.Pipe()
 	if err != nil {
 		return nil, err
 	}
+	cmd.Stdout = pw
 	if err := cmd.Start(); err != nil {
+		pw.Close()
+		pipe.Close()
 		return nil, err
 	}
+	pw.Close()
 	c := &c16Child{cmd: cmd, tick: make(chan struct{}, 1)}
 	go func() {
+		defer pipe.Close()
 		sc := bufio.NewScanner(pipe)
 		sc.Buffer(make([]byte, 1<<16), 1<<20)
 		for sc.Scan() {
@@ -201,6 +218,9 @@ func c16Start(dir string, dirSeed int64, cycle, max int) (*c16Child, error) {
 			}
 		}
 		c.mu.Lock()
+		if err := sc.Err(); err != nil {
+			c.proto = "reading the child's output: " + err.Error()
+		}
 		c.eof = true
 		c.mu.Unlock()
 		select {
@@ -290,11 +310,7 @@ func c16Dir(base string, dirIdx int, seed int64, cycles, maxStores int, maxRun t
 	}
 	ids := c16Ids(dirSeed)
 	w := shNewWorld()
-	for _, id := range ids {
-		for t := 0; t < c16Tags; t++ {
-			w.vaa(id, c16Tag(t), c16Plen(id, c16Tag(t)))
-		}
-	}
+	wroteIn := map[[32]byte]int{} // hash of the bytes -> cycle they belong to
 	tab := make([]interface{}, len(ids))
 	for i, id := range ids {
 		tab[i] = id.J()
@@ -314,6 +330,14 @@ func c16Dir(base string, dirIdx int, seed int64, cycles, maxStores int, maxRun t
 	plans := c16Plans(rand.New(rand.NewSource(dirSeed*31+3)), cycles, maxRun)
 	for cyc, plan := range plans {
 		st.cycles++
+		for _, id := range ids { // everything this cycle's child can write
+			for t := 0; t < c16Tags; t++ {
+				v := c16Build(w, id, c16Tag(t), cyc)
+				h := sha256.Sum256(v.Encode())
+				w.byHash[h] = shVal{ID: id, Tag: c16Tag(t)}
+				wroteIn[h] = cyc
+			}
+		}
 		ch, err := c16Start(dir, dirSeed, cyc, maxStores)
 		if err != nil {
 			return lines, st, "cannot start the child: " + err.Error()
@@ -339,8 +363,8 @@ func c16Dir(base string, dirIdx int, seed int64, cycles, maxStores int, maxRun t
 		if err := ch.cmd.Process.Kill(); err != nil && !strings.Contains(err.Error(), "already finished") {
 			return lines, st, "cannot kill the child: " + err.Error()
 		}
+		ch.waitFor(func(s c16Child) bool { return s.eof }, c16Timeout) // drain every acknowledgement first
 		ch.cmd.Wait()
-		ch.waitFor(func(s c16Child) bool { return s.eof }, c16Timeout)
 		s := ch.snapshot()
 		if !s.eof {
 			return lines, st, "the child's output did not end after the kill"
@@ -407,6 +431,9 @@ func c16Dir(base string, dirIdx int, seed int64, cycles, maxStores int, maxRun t
 				code, errs = "Error", shErrStr(err)
 			} else {
 				c := w.classify(b)
+				if wc, ok := wroteIn[sha256.Sum256(b)]; ok {
+					c["wc"] = wc
+				}
 				res = append(res, c)
 				found = c["tag"].(string)
 			}
